@@ -120,3 +120,19 @@ Theorem C01_add_to_queue_preserves_queues :
   (forall n, ~ In n (queue_names (enqueue p adds qs)) -> lookup (refs c') n = lookup (refs c) n).
 Proof. exact add_to_queue_preserves_wf. Qed.
 Print Assumptions C01_add_to_queue_preserves_queues.
+
+(* One pull-request evaluation as a whole (Model/Job.v): the control skeleton of _handle_pull_request
+   (Model/Pipeline.v) drives update_integration_branches, add_to_queue and merge_integration_branches over the
+   job's clone; every other step is an arbitrary operation that leaves the destination branches alone.  Whatever
+   the steps answer (every oracle), whatever the commit graph, the number of targets and the strategies, the clone
+   the evaluation ends with keeps the forward-port inclusion. *)
+Require Import BertE.Model.Pipeline BertE.Model.Job BertE.Proofs.JobProofs.
+Theorem C01_evaluation :
+  forall (later : name -> name -> Prop) (d : jobdata) (other : stage -> clone -> option clone),
+  (forall s c c', wf_clone c -> other s c = Some c' -> dest_stable later c c') ->
+  forall cfg o pos tr r c c',
+  exec o pos (pr_inner cfg) = (tr, r) ->
+  wf_clone c -> Incl later c -> names_ok later d c -> job_clone d other tr c = Some c' ->
+  wf_clone c' /\ Incl later c'.
+Proof. exact pr_evaluation_keeps_inclusion. Qed.
+Print Assumptions C01_evaluation.
